@@ -36,8 +36,11 @@ from treadmill.scheduler import loader as loadermod
 from oracles import cellobs
 from oracles import cellcheck
 
+from engines import masterloop
+
 scheduler.DIMENSION_COUNT = 3
 
+LOOP_PROPS = ('C09', 'C11')
 CELL_PROPS = ('C01', 'C03', 'C04', 'C05', 'C06', 'C08', 'C02')
 _TRUTH = None
 _WRAPPED = False
@@ -321,7 +324,7 @@ class MasterDied(Exception):
         self.err = err
 
 
-class World:
+class World(masterloop.LoopWorld):
     def __init__(self, config, clock, prop, log):
         self.config = config
         self.clock = clock
@@ -833,7 +836,12 @@ class World:
     # ops: the world
     def apply(self, op):
         self.ops_since_cycle.append(op['op'])
-        getattr(self, 'op_' + op['op'])(op)
+        name = op['op']
+        if self.config.get('loop'):
+            # loop tier: the master-stepping ops are carried out by the
+            # repo's own run_loop (engines/masterloop.py)
+            name = masterloop.LOOP_OPS.get(name, name)
+        getattr(self, 'op_' + name)(op)
 
     def _node_client(self, name, fresh=False):
         client = self.node_sessions.get(name)
@@ -1384,6 +1392,10 @@ class World:
         if op.get('crash_at') is not None:
             fault = {'at': op['crash_at'], 'kind': 'crash',
                      'applied': bool(op.get('applied'))}
+        if self.config.get('loop'):
+            if self.loop_start_master(fault=fault):
+                self.after_cycle('start', False)
+            return
         try:
             self.start_master(fault=fault)
         except MasterDied as err:
@@ -1448,6 +1460,8 @@ class World:
 
     def caught_up(self):
         """True if the master has processed everything that happened."""
+        if self.loop is not None:
+            return self.loop_caught_up()
         if self.master is None or self.queue:
             return False
         for path in WATCHED:
@@ -2047,7 +2061,7 @@ class Generator:
         return {'op': 'snap', 'path': self.rng.choice(WATCHED)}
 
     def g_process(self, world):
-        return {'op': 'process'} if world.queue else None
+        return {'op': 'process'} if world.queue or world.loop else None
 
     def g_drain(self, world):
         return {'op': 'drain'}
@@ -2965,6 +2979,9 @@ def make_config(prop, tier, rng):
     if prop != 'C10':
         # (C10 enumerates the crash points itself)
         cfg['p_cycle_crash'] = rng.choice([0.0, 0.0, 0.05, 0.12])
+    if prop in LOOP_PROPS:
+        # loop tier (engines/masterloop.py): the real run_loop / watch
+        cfg['loop'] = rng.random() < 0.3
     return cfg
 
 
@@ -3057,6 +3074,7 @@ class MasterSim(enginemod.Engine):
         saved_exit = utils.sys_exit
         utils.sys_exit = _sys_exit
         global _TRUTH
+        world = None
         try:
             world = World(config, clock, prop, log)
             if prop in CELL_PROPS:
@@ -3112,6 +3130,8 @@ class MasterSim(enginemod.Engine):
             res.log_lines = log.lines if keep_log else None
             res.extra['world'] = world
         finally:
+            if world is not None:
+                world.loop_stop()
             utils.sys_exit = saved_exit
             clock.uninstall()
             cellobs.set_cycle_hook(None)
